@@ -213,6 +213,7 @@ class MutableShareFile:
     def _write_lease_record(self, f, lease_number, lease_info):
         extra_lease_offset = self._read_extra_lease_offset(f)
         num_extra_leases = self._read_num_extra_leases(f)
+        add_extra_lease = False
         if lease_number < 4:
             offset = self.HEADER_SIZE + lease_number * self.LEASE_SIZE
         elif (lease_number-4) < num_extra_leases:
@@ -221,13 +222,17 @@ class MutableShareFile:
                       + (lease_number-4)*self.LEASE_SIZE)
         else:
             # must add an extra lease record
-            self._write_num_extra_leases(f, num_extra_leases+1)
+            add_extra_lease = True
             offset = (extra_lease_offset
                       + 4
                       + (lease_number-4)*self.LEASE_SIZE)
         f.seek(offset)
         assert f.tell() == offset
         f.write(self._schema.lease_serializer.serialize(lease_info))
+        if add_extra_lease:
+            # count the new record only once it is in the file: a record
+            # beyond the count is ignored, a count beyond the file is not.
+            self._write_num_extra_leases(f, num_extra_leases+1)
 
     def _read_lease_record(self, f, lease_number):
         # returns a LeaseInfo instance, or None
